@@ -524,6 +524,35 @@ def anchored(ctx, col):
     else:
         col.unresolved("R-RELABEL", l.qualname, l.loc(), "after every link the whole linked component carries the label of the component it joined",
                        f"{len(main)} candidate loops, label tables {sorted(lab_names)}", stmt="relabel")
+    # component labels of ANY parent table (cycles included): synchronous pointer doubling `t = t[t]` only rotates the labels round a cycle
+    col.rule("R-DOUBLING", "component labels are computed by a relaxation that also terminates correctly on cycles: no unguarded synchronous pointer doubling `t = t[t]` "
+             "(on a cycle it only rotates the labels); zero expected", floor=1)
+    gd = repo.get_def(f"{BASE}.get_dsu")
+    n_doubling = 0
+    for dd in [gd] + [x for x in repo.all_defs() if x.module is gd.module and x.name.startswith("_") and x.parent is None and not x.is_lambda]:
+        for st in own_nodes(dd):
+            if isinstance(st, ast.Assign) and len(st.targets) == 1:
+                t, v = st.targets[0], st.value
+                base = t.value if isinstance(t, ast.Subscript) else t
+                if isinstance(base, ast.Name) and isinstance(v, ast.Subscript) and isinstance(v.value, ast.Name) and v.value.id == base.id \
+                        and isinstance(v.slice, ast.Name) and v.slice.id == base.id:
+                    guarded = any(isinstance(c, ast.Compare) and "arange" in norm_src(c) for c in ast.walk(dd.node)) or any(
+                        isinstance(c, ast.Compare) and "arange" in norm_src(c) for o in repo.all_defs() if o.module is gd.module and not o.is_lambda for c in ast.walk(o.node)
+                        if o is not dd and any(isinstance(k, ast.Call) and (dotted(k.func) or "").rsplit(".", 1)[-1] == dd.name for k in ast.walk(o.node)))
+                    uses_dsu = dd is gd or any(isinstance(k, ast.Call) and (dotted(k.func) or "").rsplit(".", 1)[-1] == dd.name for k in ast.walk(gd.node))
+                    if not uses_dsu:
+                        continue
+                    if guarded:
+                        n_doubling += 1
+                        col.unresolved("R-DOUBLING", dd.qualname, dd.loc(st), "component labels are right for tables with cycles too",
+                                       f"`{norm_src(st)}` is synchronous pointer doubling, used under a test on the row order (not decided whether the test excludes every cycle)", stmt="doubling")
+                    else:
+                        n_doubling += 1
+                        col.bad("R-DOUBLING", dd.qualname, dd.loc(st), "component labels are right for tables with cycles too",
+                                f"`{norm_src(st)}` replaces every label by its label's label at once: along a cycle of two or more nodes the labels only rotate, however often this is "
+                                f"repeated, so nodes of one connected component keep different labels (is_single_root answers False for a connected table)", stmt="doubling", definite=True)
+    if not n_doubling:
+        col.ok("R-DOUBLING", gd.qualname, gd.loc(), "component labels are right for tables with cycles too", "no synchronous pointer doubling", stmt="doubling")
     h = repo.get_def(f"{CHK}.has_cyclic")
     col.text_group("R-CHECK", h.qualname, h, [
         ("one element per row", ["dsu = DisjointSetUnion(node_number=node_num)"], "dsu"),
